@@ -54,6 +54,7 @@ let enc_laws sch m v =
     law "C04.size_eq_len" (msg_size sch m v = n_of_int (List.length e1) && msg_size sch m v = n_of_int (List.length e0));
     law "C05.canon_emit" (emit sch true m (canon v) = e1);
     law "C04.size_prog_correct" (run_size sch m (canon_size sch m) v = Some (msg_size sch m v));   (* SizeProg.size_prog_correct_stmt; wf is checked at the SCHEMA line *)
+    law "C02.marshal_prog_correct" (run_marshal sch true m (canon_marshal sch m) v = Some e1 && run_marshal sch false m (canon_marshal sch m) v = Some e0);   (* MarshalProg.marshal_prog_correct_stmt *)
     if unknowns_okb sch m v then incr unk_ok_seen else incr unk_bad_seen;
     (match pulsar_unmarshal sch false m VNil e0 with
      | Ok r -> law "C01.roundtrip_nondet" (r = norm sch m v); law "C06.accepted_wt" (wt_msg sch m r)
